@@ -105,6 +105,17 @@ void ResolutionProof::endChain(CRef conclusion)
       assert(!current_chain.isEmpty());
       assert(current_chain.ref == 0);
       current_chain.type = clause_type::CLA_LEARNT;
+      if (conclusion == CRef_Undef) {
+          // A refutation stored earlier (e.g. of a frame that has been popped since) must not survive: the new one replaces it
+          auto stale = clause_to_proof_der.find(conclusion);
+          if (stale != clause_to_proof_der.end()) {
+              for (CRef premise : stale->second.chain_cla) {
+                  auto premiseIt = clause_to_proof_der.find(premise);
+                  if (premiseIt != clause_to_proof_der.end()) { --premiseIt->second.ref; }
+              }
+              clause_to_proof_der.erase(stale);
+          }
+      }
       assert( clause_to_proof_der.find( conclusion ) == clause_to_proof_der.end( ) );
       // Create association between res and it's derivation chain
       clause_to_proof_der.emplace(conclusion, std::move(current_chain));
